@@ -1019,6 +1019,83 @@ func (x *extractor) factsAds() {
 		hops = strings.Join(parts, ";")
 	}
 	x.set("unreach_hops", hops)
+	// ---- small structural facts about pkg/workceptor
+	// (C05) a signed results request gets a fresh token each time: createSignature is called inside the request loop
+	sign := "unknown"
+	if fd := x.fn("pkg/workceptor/remote_work.go", "remoteUnit", "monitorRemoteStdout"); fd != nil {
+		inLoop, outside := 0, 0
+		var loops []*ast.ForStmt
+		ast.Inspect(fd, func(n ast.Node) bool {
+			if f, ok := n.(*ast.ForStmt); ok {
+				loops = append(loops, f)
+			}
+			return true
+		})
+		ast.Inspect(fd, func(n ast.Node) bool {
+			if c, ok := n.(*ast.CallExpr); ok && strings.HasSuffix(x.str(c.Fun), ".createSignature") {
+				in := false
+				for _, l := range loops {
+					if l.Body.Pos() <= c.Pos() && c.End() <= l.Body.End() {
+						in = true
+					}
+				}
+				if in {
+					inLoop++
+				} else {
+					outside++
+				}
+			}
+			return true
+		})
+		sign = fmt.Sprintf("per-request:%d;outside-the-loop:%d", inLoop, outside)
+	}
+	x.set("res_remote_sign", sign)
+	// (C13) the command runner works in the directory it is given and never creates it
+	rmk := "unknown"
+	if fd := x.fn("pkg/workceptor/command.go", "", "commandRunner"); fd != nil {
+		var made []string
+		ast.Inspect(fd, func(n ast.Node) bool {
+			if c, ok := n.(*ast.CallExpr); ok {
+				if f := x.str(c.Fun); f == "os.MkdirAll" || f == "os.Mkdir" {
+					made = append(made, f)
+				}
+			}
+			return true
+		})
+		rmk = "creates-no-directory"
+		if len(made) > 0 {
+			rmk = "creates:" + strings.Join(made, ",")
+		}
+	}
+	x.set("life_runner_mkdir", rmk)
+	// (C14) the lock file of a status record is never removed or renamed on its own (the lock is the inode): the only
+	// removals in the package are of whole unit directories
+	lk := "unknown"
+	{
+		var hits []string
+		for _, f := range []string{"workceptor.go", "workunitbase.go", "command.go", "remote_work.go", "stdio_utils.go", "controlsvc.go"} {
+			file := x.file("pkg/workceptor/" + f)
+			if file == nil {
+				continue
+			}
+			ast.Inspect(file, func(n ast.Node) bool {
+				if c, ok := n.(*ast.CallExpr); ok {
+					fn := x.str(c.Fun)
+					if fn == "os.Remove" || fn == "os.Rename" || fn == "os.RemoveAll" || fn == "os.Truncate" {
+						arg := ""
+						if len(c.Args) > 0 {
+							arg = x.str(c.Args[0])
+						}
+						hits = append(hits, f+":"+fn+"("+arg+")")
+					}
+				}
+				return true
+			})
+		}
+		sort.Strings(hits)
+		lk = strings.Join(hits, ";")
+	}
+	x.set("st_removals", lk)
 	x.set("ads_relay", relay)
 }
 
